@@ -149,6 +149,17 @@ func (m *Machine) floatBinop(op token.Token, x, y value, in ssa.Instruction) val
 		}
 		return u
 	}
+	_, xApx := x.(*FApx)
+	_, yApx := y.(*FApx)
+	if xApx || yApx {
+		if isCmp(op) {
+			return m.apxCmp(op, x, y)
+		}
+		if r, ok := m.apxBinop(op, x, y); ok {
+			return r
+		}
+		return FUnknown{fmt.Sprintf("float op %s on approximated operands at %s", op, posOf(m.prog, in.Pos()))}
+	}
 	xc, xConc := x.(float64)
 	yc, yConc := y.(float64)
 	if xConc && yConc {
@@ -224,6 +235,12 @@ func (m *Machine) floatBinop(op token.Token, x, y value, in ssa.Instruction) val
 					return m.reduceRat(n, d)
 				}
 			}
+		}
+	}
+	// approximation path (opt-in): inexact operation with a sound error bound instead of a table
+	if m.apxFloats && !isCmp(op) {
+		if r, ok := m.apxBinop(op, x, y); ok {
+			return r
 		}
 	}
 	// table path
@@ -304,6 +321,8 @@ func fdesc(v value) string {
 		return fmt.Sprintf("FRat{[%d,%d]/%d}", v.num.lo, v.num.hi, v.den)
 	case *FTab:
 		return fmt.Sprintf("FTab{%d entries}", len(v.vals))
+	case *FApx:
+		return fmt.Sprintf("FApx{[%d,%d]/%d +-[%d,%d]u}", v.num.lo, v.num.hi, v.den, v.err.lo, v.err.hi)
 	}
 	return fmt.Sprintf("%T", v)
 }
@@ -414,6 +433,8 @@ func (m *Machine) floatToInt(x value, in ssa.Instruction) value {
 		return int64(x)
 	case *FRat:
 		return m.simp(m.tb.Quo(x.num, m.tb.Int(x.den)))
+	case *FApx:
+		return m.apxToInt(x, in)
 	case *FTab:
 		vals := make([]int64, len(x.vals))
 		for i, f := range x.vals {
@@ -433,6 +454,12 @@ func (m *Machine) iteFloat(g *Term, a, b value) value {
 	}
 	if u, ok := b.(FUnknown); ok {
 		return u
+	}
+	if _, ok := a.(*FApx); ok {
+		panic(mergeFail{"approximated float ite"})
+	}
+	if _, ok := b.(*FApx); ok {
+		panic(mergeFail{"approximated float ite"})
 	}
 	if af, ok := a.(float64); ok {
 		if bf, ok := b.(float64); ok {
@@ -479,6 +506,8 @@ func (m *Machine) mathFn(name string, args []value, site ssa.Instruction) value 
 			return f(x)
 		case *FTab:
 			return m.tabMap(x, f)
+		case *FApx:
+			return m.apxMath(name, x, site)
 		case *FRat:
 			tb := m.tb
 			d := tb.Int(x.den)
